@@ -14,9 +14,13 @@ InsertPadding and operand-dependent instruction sizes), wrappers PassLoop_MC / _
     A second alphabet per class (PassLoop_Gen_self*.cfg, <= 3 items) adds reference statements that carry a label on
     their own line and refer to that very label, to the PC symbol or to a difference (la: dc.w la / dc.w * /
     tab: dc.w r0-tab / la: bra la): the statement that triggers the padding is itself the reference.
+    A third alphabet (PassLoop_Gen_pageabs.cfg, <= 4 items, origin 254) adds Assume(page) = ASSUME DPR:/B: items:
+    the page in force at a statement is that of the last Assume before it in program order, 0 at the start of
+    EVERY pass; a direct-form operand byte b stands for page*256+b (PassLayout PageAt / EncVal).  The model with
+    PageReset = FALSE (PassLoop_MC_page_leak.cfg) must violate Fixpoint.
 (G) TLC (PassLoop_Gen) exports every program up to the bound once, plus simulated longer ones (<= 12 items,
     3 labels), each with the model's prediction.  Every program is rendered for the dialects of its class
-    (68000 | 6809, 68HC11, 6502 | 8086; MSP430 .byte/.word/nop for the padded self-reference programs; label
+    (68000 | 6809, 68HC11, 6502 | 8086; MSP430 .byte/.word/nop for the padded self-reference programs; 6809 + 65CE02 for the ASSUME programs; label
     spellings and mnemonics seed-chosen), assembled by the real asl
     under ASL_VERIF_MAX_PASSES=40, and again with ASL_VERIF_EXTRA_PASSES=1.  The code file is decoded item by
     item (marker byte pair after each label, opcode table per reference kind) into a layout that goes back to
@@ -54,6 +58,9 @@ Mutations of the real code tried on scratch copies (selftest/C01-*.diff, `./chec
   m8 68000 DC.W/DC.L on an odd address evaluates its operand       suite  0 fail   caught: Obs 'value' on
      before InsertPadding (label of the same line / PC symbol                      fill 1 / la: dc.w la, dc.w *,
      encoded unpadded)                                                             la: dc.w lb-la (self classes)
+  m9 6809 DPRValue initialised once at start-up instead of per    suite  0 fail   caught: Obs 'value' on lda la /
+     pass (ASSUME DPR of the previous pass sizes operands in                       assume dpr:1 / la: at 254 (stable but
+     front of the first ASSUME)                                                    wrong), extra-pass code differs
   fix the three proposed repairs applied                                           check exits 0 without KNOWN-FINDING
 A run on the unchanged tree exits 0 with the KNOWN-FINDING lines listed above.
 """
@@ -69,6 +76,8 @@ PID = "C01"
 CAP = 40
 CLASSES = ("68k", "abs", "86")
 SELFCLASSES = ("self68k", "selfabs", "self86")   # alphabets with self-referencing (padded) reference statements
+# further alphabets judged with the PassLoop_Obs config of their base class; pageabs: ASSUME DPR / ASSUME B items
+EXTRA = {"68k": ("self68k",), "abs": ("selfabs", "pageabs"), "86": ("self86",)}
 
 
 # ------------------------------------------------------------------------------------------------
@@ -105,6 +114,8 @@ def tlc_jobs(tier):
                                     collect=True, mem="8g")
         if tier != "quick":
             jobs["MC_" + c] = dict(module="PassLoop_MC", cfg="PassLoop_MC_%s5.cfg" % c, mem="12g", workers=4)
+    jobs["Gen_pageabs"] = dict(module="PassLoop_Gen", cfg="PassLoop_Gen_pageabs.cfg", tags=("OUT",), collect=True)
+    jobs["MC_page_leak"] = dict(module="PassLoop_MC", cfg="PassLoop_MC_page_leak.cfg")
     jobs["MC_err"] = dict(module="PassLoop_MC", cfg="PassLoop_MC_err.cfg")
     jobs["MC_pinned"] = dict(module="PassLoop_MC", cfg="PassLoop_MC_68k_pinned.cfg")
     jobs["MC_pinned_char"] = dict(module="PassLoop_MC", cfg="PassLoop_MC_68k_pinned_char.cfg")
@@ -154,6 +165,12 @@ def model_checks(rep, tier, R):
             raise CheckError("pinned algorithm: a non-terminating run without a patched label (%s): %s"
                              % (n, r.violation[:1500]))
         rep.model("PassLoop_MC(%s, pinned, LivelockOnlyWhenPatched)" % n[10:], r)
+    r = tlc.must(R["MC_page_leak"], "page leak cfg")
+    if not r.violation or "Fixpoint" not in r.violation:
+        raise CheckError("PassLoop(PageReset=FALSE) must violate Fixpoint (stale direct page sizes an operand)")
+    rep.model("PassLoop_MC(abs, page register not reset per pass)", r)
+    rep.part("PassLoop_MC(abs, page register not reset per pass)", fixpoint="violated (expected)",
+             program=_prog_of_counterexample(r.out))
     r = tlc.must(R["MC_Y"], "-Y cfg")
     if not r.violation or "Termination" not in r.violation:
         raise CheckError("PassLoop(ThrowErrors=TRUE) no longer shows the -Y oscillation")
@@ -192,7 +209,8 @@ def generate(rep, cls, tier, r, R):
         small = [x for x in exhaustive if len(x["prog"]) <= 3]
         big = [x for x in exhaustive if len(x["prog"]) > 3]
         r.shuffle(big)
-        quota = {"68k": 1100, "abs": 350, "86": 550, "self68k": 400, "selfabs": 150, "self86": 300}[cls]
+        quota = {"68k": 1100, "abs": 350, "86": 550, "self68k": 400, "selfabs": 150, "self86": 300,
+                 "pageabs": 900}[cls]
         if cls in SELFCLASSES:      # all of <= 2 items (label + padded self-reference needs two), sampled 3-item ones
             small = [x for x in exhaustive if len(x["prog"]) <= 2]
             big = [x for x in exhaustive if len(x["prog"]) > 2]
@@ -618,11 +636,11 @@ def evaluate(rep, bld, R, tier, parts=("G", "Y", "VG", "VC")):
     cases86 = []
     for cls in CLASSES:
         cases = generate(rep, cls, tier, r, R)
-        selfcases = generate(rep, "self" + cls, tier, r, R)
+        more = tuple((x, generate(rep, x, tier, r, R)) for x in EXTRA[cls])
         if cls == "86":
             cases86 = cases
         if "G" in parts:
-            todo, results = replay_class(rep, bld, cls, cases, tier, more=(("self" + cls, selfcases),))
+            todo, results = replay_class(rep, bld, cls, cases, tier, more=more)
             cls_todo[cls] = todo
     if "Y" in parts:
         y_option_part(rep, bld, cases86, tier)
